@@ -24,6 +24,7 @@ func extraAgents(s *Sim) []Agent {
 	add("incentive", &IncentiveAgent{newBase(s, "incentive")})
 	add("orders", &OrdersAgent{newBase(s, "orders")})
 	add("executor", &ExecutorAgent{baseAgent: newBase(s, "executor")})
+	add("attacker", &AttackerAgent{baseAgent: newBase(s, "attacker")})
 	return out
 }
 
@@ -43,6 +44,7 @@ func extraMonitors(s *Sim) []Monitor {
 		newMonC13(s),
 		newMonC10(s),
 		newMonC20(s),
+		&MonC17{},
 	}
 }
 
